@@ -294,7 +294,7 @@ func shapes() []shape {
 			{arg: "", commits: []int{2}, base: -1, useIndex: true},
 			{arg: "HEAD", commits: []int{2}, base: -1},
 			{arg: "HEAD~1", commits: []int{1}, base: -1},
-			{arg: "HEAD~2", commits: []int{0}, base: -1},
+			{arg: "HEAD~2", commits: []int{0}, base: -1, thoroughOnly: true},
 			{arg: "HEAD~2..HEAD", commits: []int{1, 2}, base: 0},
 			{arg: "HEAD~2..HEAD~1", commits: []int{1}, base: 0, thoroughOnly: true},
 			{arg: "HEAD..HEAD", commits: nil, base: 2, thoroughOnly: true},
